@@ -111,7 +111,7 @@ def tlc(wd, module, cfg_text, files=(), workers=None, timeout=1800, simulate=Non
     m = re.search(r"depth of the complete state graph search is (\d+)", out)
     res["depth"] = int(m.group(1)) if m else 0
     res["ok"] = "Model checking completed. No error has been found." in out or (simulate and p.returncode in (0, 124) and "Error:" not in out)
-    m = re.search(r"Invariant (\w+) is violated", out)
+    m = re.search(r"Invariant (\w+) is violated", out) or re.search(r"The invariant of (\w+) is equal to FALSE", out)
     res["violated"] = m.group(1) if m else None
     if not m:
         m = re.search(r"Temporal properties were violated|Action property (\w+) is violated", out)
